@@ -1238,7 +1238,8 @@ def gen_history(rng, cid, length, show_every=True):
         for k in (1, 1, 2, 2):
             d = fresh()
             c.spl_lincomb(d, [rand_scalar(rng, False) for _ in range(k)], [a] * k); spl[d] = spl[a]
-            dump()
+            c.show(d); c.show(a)          # result and operand only: a full dump here makes the thorough tier's programs too large
+    dump()
     return c
 
 
